@@ -24,6 +24,7 @@ ASSUMPTIONS = [
     "NOT covered: everything else in C16 — ordered exactly-once delivery, finish / end-of-stream, flow control, datagrams not interfering "
     "(all quinn-proto + real UDP sockets + the connection worker); endpoint close; the worker noticing the close; the rest of "
     "ConnectionInner::run (select!, timer, transmit, the non-stream event arms)",
+    "conn.close_event executes the slice from IntoIter<ConnectionEvent>::next() answering Some(Close(code, reason)) to the next next(); "
     "conn.stream_event / conn.conn_event execute a slice of ConnectionInner::run's coroutine body (from the return of state.conn.poll() with Some(event) to the "
     "next call of state.conn.poll()); required reactions, read from quinn-proto's event documentation: Readable -> the stream's reader, "
     "Writable -> its writer, Finished -> its stopped() future, Stopped -> its stopped() future and its blocked writer",
